@@ -161,7 +161,7 @@ PROPS["C19"] = {
     ],
 }
 
-SERIAL_FNS = ["StringRef::write", "ColumnType::write_value", "ColumnType::width", "Column::coltype",
+SERIAL_FNS = ["lemma_pool_bytes_is_pf", "StringRef::write", "ColumnType::write_value", "ColumnType::width", "Column::coltype",
               "Table::write_rows", "StringPool::write_pool", "StringPool::write_data",
               "lemma_offset16", "lemma_offset32", "lemma_ref_split"]
 PROPS["C01"]["verus"]["serial"] = SERIAL_FNS
@@ -177,6 +177,15 @@ PROPS["C15"] = {
         "NOT covered: PropertySet::write (BTreeMap iteration + enumerate), FinishImpl::finish / Package::flush / into_inner propagation, user-held StreamWriters, read/seek faults, the cfb container itself",
     ],
 }
+
+READER_FNS = ["StringRef::read", "ColumnType::read_value", "Timestamp::read_from", "PropertyValue::read",
+              "StringPoolBuilder::read_from_pool", "StringPoolBuilder::build_from_data",
+              "lemma_ref_join", "lemma_unoffset16", "lemma_unoffset32", "lemma_zero32", "lemma_header_bits"]
+PROPS["C02"]["verus"]["readers"] = READER_FNS
+PROPS["C09"]["verus"]["readers"] = READER_FNS
+PROPS["C01"]["verus"]["readers"] = ["StringRef::read", "ColumnType::read_value", "Timestamp::read_from", "PropertyValue::read",
+                                    "StringPoolBuilder::read_from_pool", "lemma_le16_roundtrip", "lemma_parse_entry",
+                                    "lemma_entries_front", "lemma_pool_pair"]
 
 # assumptions that hold for every check of this family
 COMMON_ASSUMPTIONS = [
